@@ -1,7 +1,7 @@
 import Driver.Common
 import TransportVerif.Model.ListenerLife
 /- driver component `life` (C12):
-   case <id> <accepted> <queued> <backlog> <roles: A | L | C<k> …>
+   case <id> <accepted> <queued> <backlog> <roles: A | L | C<k> | K<a> (closer of the connection thread a accepts) …>
    ops: g <thread> | arr | end # k=<socket closed 0/1> lc=<listener closed 0/1> open=<accepted connections still open> pending=<threads not finished>
    out: k=<0/1> q=<backlog length> n=<table size> <pc of every thread>
         pcs: S start, X at select, P parked in select, L at lock, W at wait, V parked in wait, c<k> got connection k, err, ok -/
@@ -21,7 +21,9 @@ def sysStr (s : Sys) : String :=
     String.intercalate "," (s.ths.map (fun t => pcStr t.pc))
 
 def role (x : String) : Role :=
-  if x = "A" then .acceptor else if x = "L" then .lcloser else .ccloser (nat! (x.drop 1).toString)
+  if x = "A" then .acceptor else if x = "L" then .lcloser
+  else if x.startsWith "K" then .acloser (nat! (x.drop 1).toString)
+  else .ccloser (nat! (x.drop 1).toString)
 
 /-- C12 at quiescence, on the implementation's own final observation: the socket is closed exactly
     when the listener and every accepted connection have been closed -/
@@ -57,6 +59,8 @@ def comp : Component where
           | .lcloser, .atLock => "lclose-drains " ++ (if !st.s.acceptQ.isEmpty then "discards-unaccepted " else "") ++ (if s'.sockClosed ∧ !st.s.sockClosed then "socket-closes " else "")
           | .ccloser _, .start => "cclose-begins " ++ (if s'.sockClosed ∧ !st.s.sockClosed then "socket-closes " else "")
           | .ccloser _, .atLock => "cclose-unregisters "
+          | .acloser _, .start => (if s' == st.s then "aclose-waits-for-accept " else "aclose-begins ") ++ (if s'.sockClosed ∧ !st.s.sockClosed then "socket-closes " else "")
+          | .acloser _, .atLock => "aclose-unregisters "
           | _, .atWait => "waits-for-readloop "
           | _, _ => "start ")
         | none => "bad-thread "
